@@ -11,12 +11,23 @@ import (
 	"google.golang.org/protobuf/types/pluginpb"
 )
 
-const (
-	verifRoot   = "/verif"
+const goTool = "go1.26.8"
+
+// VERIF_ROOT / VERIF_REPO are set by check.py (tools/par_matrix.sh runs copies of /verif against scratch
+// worktrees of /repo); the defaults are the real locations.
+var (
+	verifRoot   = envOr("VERIF_ROOT", "/verif")
+	repoRoot    = envOr("VERIF_REPO", "/repo")
 	harnessDir  = verifRoot + "/harness"
 	scratchRoot = verifRoot + "/build/gen-scratch"
-	goTool      = "go1.26.8"
 )
+
+func envOr(k, d string) string {
+	if v := os.Getenv(k); v != "" {
+		return v
+	}
+	return d
+}
 
 func goEnv() []string {
 	env := os.Environ()
